@@ -29,6 +29,7 @@ META['explanation'] += ' ' + 'R10: float valued fields refuse NaN / infinities (
 META['explanation'] += ' ' + 'R14: native value of an OPTIONAL ASN.1 field tested before use (field tables read from asn1crypto). R15: modulus / prime of a parsed RSA / DSA key refused unless positive (abstract run; syntactic reading where the run does not reach). R16: text of parameter objects against null fields of the data tables. R17: rendering calls no parse entry point. R18: parsable classes with a plain initialiser have a rendering.'
 
 META['explanation'] += ' ' + 'R19: optional parts of a urllib3 Url are tested before they are sliced, concatenated or measured (field list read from the dependency). R20: explicit __eq__ / __hash__ compare the attributes as held. R21: hand written renderings evaluated on objects built with the constructor defaults.'
+META['explanation'] += ' ' + 'R22: renderings show every item of a stored sequence (shared with C10.R16).'
 
 SET_NAMES = {'set', 'frozenset'}
 
